@@ -1114,7 +1114,8 @@ class _SocketManager:
         if conn is not None:
             try:
                 conn.send_message(message)
-            except (ValueError, OSError) as exc:
+            except Exception as exc:
+                # This includes errors while serializing the message (e.g. values that can not be pickled).
                 # TODO qmi#379 - It sometimes happens that a background service
                 #     logs 1000s of BrokenPipeError exceptions within 1 second.
                 #     To be investigated why this happens.
@@ -1142,6 +1143,19 @@ class _SocketManager:
                 _logger.debug("Failed to deliver error reply to %r", message.source_address)
             except Exception:
                 _logger.exception("Unexpected exception while delivering error reply to %r", message.source_address)
+
+        # If we fail to send a reply message (e.g. because the result can not be serialized or is too big),
+        # send an error reply instead, so that the requester does not keep waiting for the lost reply.
+        elif ((error_msg is not None) and (conn is not None) and isinstance(message, QMI_ReplyMessage)
+              and not isinstance(message, QMI_ErrorReplyMessage)):
+            error_reply = QMI_ErrorReplyMessage(source_address=message.source_address,
+                                                destination_address=message.destination_address,
+                                                request_id=message.request_id,
+                                                error_msg=error_msg)
+            try:
+                conn.send_message(error_reply)
+            except Exception:
+                _logger.debug("Failed to send error reply to %r", message.destination_address)
 
     def get_peer_context_names(self) -> List[str]:
         """Return a list of peer context names.
